@@ -400,6 +400,25 @@ def run_shard(spec):
             sh.count("float_double_union_cases")
             sh.run_case(one_case, sh, fa, V, random.Random(7), case, False)
             sh.run_case(one_case, sh, fa, V, random.Random(8), case)
+    if spec["shard"] == 1:
+        # a logical type at the very top (and one level down) with values its conversion refuses
+        import datetime as _dt
+        import decimal as _dec
+        D = _dec.Decimal
+        tops = [({"type": "int", "logicalType": "date"}, ["not-a-date", "2024-13-45", 1.5, _dt.date(2024, 2, 29), 19000]),
+                ({"type": "bytes", "logicalType": "decimal", "precision": 4, "scale": 2}, [D("1.234"), D("123.45"), D("12.34"), D("NaN"), "12.34"]),
+                ({"type": "fixed", "name": "FD", "size": 2, "logicalType": "decimal", "precision": 4, "scale": 0}, [D("99999"), D("0.5"), D("1234"), D("-9999")]),
+                ({"type": "long", "logicalType": "timestamp-millis"}, ["yesterday", _dt.datetime(2024, 1, 1, tzinfo=_dt.timezone.utc)]),
+                ({"type": "string", "logicalType": "uuid"}, [5, "not-a-uuid"])]
+        for js, vals in tops:
+            for wrap in (False, True):
+                wjs = {"type": "array", "items": js} if wrap else js
+                node, env = RS.build(wjs)
+                for v in vals:
+                    d = [v] if wrap else v
+                    case = {"schema": wjs, "node": node, "env": env, "datum": d, "features": {"top_level_logical"}}
+                    sh.count("top_level_logical_cases")
+                    sh.run_case(one_case, sh, fa, V, random.Random(9), case, False)
     i = 0
     while i < spec["n"] and not sh.out_of_time():
         i += 1
